@@ -177,23 +177,36 @@ where
 
         let mut stream = blocks.try_buffered(self.worker_count.get());
 
-        self.block = match stream.try_next().await? {
-            Some(mut block) => {
-                let (cpos, upos) = pos.into();
-
-                self.position = cpos + block.size();
-
-                block.set_position(cpos);
-                block.data_mut().set_position(usize::from(upos));
-
-                block
-            }
-            None => Block::default(),
-        };
+        // At the end of the stream, the current block is replaced with an empty block at the
+        // given position.
+        let block = stream.try_next().await?.unwrap_or_default();
 
         self.stream.replace(stream);
+        self.set_block(block, pos)?;
 
         Ok(pos)
+    }
+
+    // Makes the given block, read from the compressed position of `pos`, the current block and
+    // moves its cursor to the uncompressed position of `pos`.
+    fn set_block(&mut self, mut block: Block, pos: VirtualPosition) -> io::Result<()> {
+        let (cpos, upos) = pos.into();
+        let upos = usize::from(upos);
+
+        self.position = cpos + block.size();
+        block.set_position(cpos);
+        self.block = block;
+
+        if upos > self.block.data().len() {
+            return Err(io::Error::new(
+                io::ErrorKind::InvalidInput,
+                "invalid uncompressed position",
+            ));
+        }
+
+        self.block.data_mut().set_position(upos);
+
+        Ok(())
     }
 
     #[doc(hidden)]
@@ -231,22 +244,18 @@ where
                         }
                     };
 
-                    self.block = match item {
-                        Some(Ok(mut block)) => {
-                            let (cpos, upos) = pos.into();
-
-                            self.position = cpos + block.size();
-
-                            block.set_position(cpos);
-                            block.data_mut().set_position(usize::from(upos));
-
-                            block
-                        }
+                    let block = match item {
+                        Some(Ok(block)) => block,
                         Some(Err(e)) => return Poll::Ready(Err(e)),
                         None => Block::default(),
                     };
 
                     self.stream.replace(stream);
+
+                    if let Err(e) = self.set_block(block, pos) {
+                        self.seek_state = Some(SeekState::Init);
+                        return Poll::Ready(Err(e));
+                    }
 
                     Some(SeekState::Done(pos))
                 }
